@@ -32,7 +32,7 @@ def fill(tree):
             else:
                 out.append(['f', e[1], 'junk'])
         else:
-            out.append(['d', e[1], fill(e[2])])
+            out.append(['d', e[1], fill(e[2])] + list(e[3:]))
     return out
 
 
@@ -51,7 +51,9 @@ def run(c, idx, base):
     top = os.path.join(base, c['topname'])
     if os.path.exists(top):
         shutil.rmtree(top)
-    treelib.materialise(top, fill(c['tree']), c.get('order_seed', 0))
+    store = os.path.join(base, 'store_%d' % idx)
+    shutil.rmtree(store, ignore_errors=True)
+    treelib.materialise(top, fill(c['tree']), c.get('order_seed', 0), store=store)
     argv = []
     mounts = []
     for r in c['roots']:
